@@ -33,6 +33,7 @@ mod resolve_ref;
 mod suite_programs;
 mod suite_unify;
 mod suite_parser;
+mod scope_family;
 mod suite_scaling;
 mod suite_listing;
 mod suite_print;
